@@ -55,3 +55,8 @@ claim("C09", "model_checking", E1,
       "Explicit-state search over the real GlobalStrategy::adapt (diagonal and low-rank estimators), one call per draw with the explored event {good, not-good, divergent}: every event word for num_tune <= 7 (10 thorough) in lock-step with the reference schedule automaton (window counts, window growth, switch condition, update bookkeeping, step-size search re-run, tuning flag, frozen transformation) and with reference dual averaging of the early/symmetric statistic; BFS with de-duplication on the schedule's own counters up to num_tune 14 (24).",
       "Trusted: the reference automaton R-schedule written from the property text (c09.rs) and R-dualavg; synthetic collectors built through hook H1; de-duplication key = (draw, foreground, background, window, last_update, has_initial), sound because the schedule code reads nothing else.",
       "explicit-state BFS/exhaustive word enumeration over the real transition function with canonical-state de-duplication, lock-step reference model", "4/C09")
+
+claim("C07", "model_checking", E1,
+      "Open-loop exploration of the real DualAverage / Adam / Strategy::init: all acceptance sequences over a 6-symbol alphabet up to length 6 (7) in lock-step with the published recurrences, every single-entry raise for monotonicity, 729 parameter combinations, constant all-0/all-1 runs of length 2000, and the initial doubling/halving search on Gaussian scales 1e-4..1e4 against one-step acceptances recomputed with the real leapfrog. The closed-loop sentence of the property is statistical and not decided.",
+      "Trusted: R-dualavg / R-adam reference recurrences; leapfrog (checked under C02) for the one-step acceptance of the search oracle. One open known finding (no lower clamp: step size underflows to 0 with gamma 0.01).",
+      "exhaustive enumeration of acceptance sequences (depth-bounded) against a reference recurrence, pairwise monotonicity check", "4/C07")
